@@ -1,22 +1,224 @@
 (* C18 — Timeouts and cancellation are bounded and leave no residue.
-   Only statements; each closed by `exact` of a lemma proved in Proofs/Timeouts*.v. *)
-From AV Require Import Lib.Base Generated.TimeoutsGen Model.Timeouts Proofs.TimeoutsArith.
+   Only statements; each closed by `exact` of a lemma proved in Proofs/Timeouts*.v (or by vm_compute for the
+   examples).  The model (Model/Timeouts.v) is a transition system over ALL histories of stimuli
+   (start / DNS answer / connect / body drained / response data / read / cancel / timer / time passes) of any
+   number of requests sharing one pool and one DNS lookup; `run g init tr = Some s` says that s is the state
+   after the history tr.  Time is counted in ticks of 1/u second; u, the pool limit, every configuration and
+   every history are universally quantified.  `Forall wf_event tr` only says that the configured timeouts
+   are not negative. *)
+From AV Require Import Lib.Base Generated.TimeoutsGen Model.Timeouts Proofs.TimeoutsArith Proofs.TimeoutsEff
+  Proofs.TimeoutsInv Proofs.TimeoutsTimers Proofs.TimeoutsMain Proofs.TimeoutsUsable.
 Open Scope Z_scope.
 
-(* ---- the documented rounding ---------------------------------------------------------------- *)
+(* ---- the documented rounding (formulas generated from helpers.py) ------------------------------------------- *)
 
-(* A total timeout t armed at `nw` expires no earlier than nw + t and no later than the next whole second
-   after it (u ticks = 1 s); it is rounded exactly when t >= ceil_threshold (helpers.TimeoutHandle.start). *)
+(* A total timeout t armed at nw expires no earlier than nw + t and before nw + t + 1 s; it is rounded up to a
+   whole second exactly when t >= ceil_threshold (TimeoutHandle.start). *)
 Theorem C18_total_deadline_rounding : forall u nw t thr, 0 < u ->
   nw + t <= total_when u nw t thr < nw + t + u /\
   (t < thr -> total_when u nw t thr = nw + t) /\
   (thr <= t -> total_when u nw t thr = ceil_to u (nw + t) /\ (total_when u nw t thr) mod u = 0).
-Proof.
-  intros u nw t thr Hu. repeat split.
-  - apply total_when_ge; assumption.
-  - pose proof (total_when_le u nw t thr Hu). pose proof (ceil_to_lt u (nw + t) Hu). lia.
-  - apply total_when_exact.
-  - apply total_when_ceiled; assumption.
-  - rewrite total_when_ceiled by assumption. apply ceil_to_multiple; assumption.
-Qed.
+Proof. exact total_deadline_rounding. Qed.
 Print Assumptions C18_total_deadline_rounding.
+
+(* connect / sock_connect (ceil_timeout): same window; rounded only when t > ceil_threshold. *)
+Theorem C18_ctx_deadline_rounding : forall u nw t thr, 0 < u ->
+  nw + t <= ctx_when u nw t thr < nw + t + u /\
+  (t <= thr -> ctx_when u nw t thr = nw + t) /\
+  (thr < t -> ctx_when u nw t thr = ceil_to u (nw + t)).
+Proof. exact ctx_deadline_rounding. Qed.
+Print Assumptions C18_ctx_deadline_rounding.
+
+(* ---- boundedness ----------------------------------------------------------------------------------------------
+   In EVERY reachable state, a request whose caller is awaiting (waiting for a pool slot, resolving, connecting,
+   sending / awaiting the head, reading the body) has its total timer armed with the generated deadline D, the
+   clock has not passed D, and D is within the documented rounding of start + T. *)
+Theorem C18_bound_total : forall g tr s t T,
+  0 < u g -> Forall wf_event tr -> run g init tr = Some s ->
+  awaiting (pcs (tasks s t)) = true -> eff_total (cfg (tasks s t)) = Some T -> 0 < T ->
+  let ts := tasks s t in
+  let D := total_when (u g) (started ts) T (c_thr (cfg ts)) in
+  d_total (tm ts) = Some D /\ now s <= D /\ D <= ceil_to (u g) (started ts + T) /\ D < started ts + T + u g /\
+  (T < c_thr (cfg ts) -> D = started ts + T).
+Proof. exact bound_total. Qed.
+Print Assumptions C18_bound_total.
+
+(* connect: covers waiting for a slot, resolving and connecting (not the reuse of an idle connection) *)
+Theorem C18_bound_connect : forall g tr s t T,
+  0 < u g -> Forall wf_event tr -> run g init tr = Some s ->
+  connecting (pcs (tasks s t)) = true -> c_connect (cfg (tasks s t)) = Some T -> 0 < T ->
+  let ts := tasks s t in
+  let D := ctx_when (u g) (started ts) T (c_thr (cfg ts)) in
+  d_conn (tm ts) = Some D /\ now s <= D /\ D <= ceil_to (u g) (started ts + T) /\ D < started ts + T + u g /\
+  (T <= c_thr (cfg ts) -> D = started ts + T).
+Proof. exact bound_connect. Qed.
+Print Assumptions C18_bound_connect.
+
+(* sock_connect: counted from the start of the socket connect attempt *)
+Theorem C18_bound_sock_connect : forall g tr s t T,
+  0 < u g -> Forall wf_event tr -> run g init tr = Some s ->
+  pcs (tasks s t) = PConnect -> c_sock_connect (cfg (tasks s t)) = Some T -> 0 < T ->
+  let ts := tasks s t in
+  let D := ctx_when (u g) (sock_started ts) T (c_thr (cfg ts)) in
+  d_sock (tm ts) = Some D /\ now s <= D /\ D <= ceil_to (u g) (sock_started ts + T) /\
+  D < sock_started ts + T + u g /\ (T <= c_thr (cfg ts) -> D = sock_started ts + T).
+Proof. exact bound_sock_connect. Qed.
+Print Assumptions C18_bound_sock_connect.
+
+(* sock_read: once the request body has been written, while awaiting the head or reading the body, the timer is
+   armed for last socket activity + T, unrounded (mid-line and mid-chunk data re-arm it like any other data) *)
+Theorem C18_bound_sock_read : forall g tr s t T,
+  0 < u g -> Forall wf_event tr -> run g init tr = Some s ->
+  pcs (tasks s t) = PHeaders \/ pcs (tasks s t) = PBody true -> writer (tasks s t) = false ->
+  c_sock_read (cfg (tasks s t)) = Some T -> T <> 0 ->
+  let ts := tasks s t in
+  d_read (tm ts) = Some (last_io ts + T) /\ now s <= last_io ts + T /\ last_io ts <= now s.
+Proof. exact bound_sock_read. Qed.
+Print Assumptions C18_bound_sock_read.
+
+(* time cannot pass an armed deadline ... *)
+Theorem C18_time_stops_at_deadline : forall g tr s d s' t w D,
+  run g init tr = Some s -> step g s (EAdv d) = Some s' -> deadline (tasks s t) w = Some D -> now s + d <= D.
+Proof. exact time_stops_at_deadline. Qed.
+Print Assumptions C18_time_stops_at_deadline.
+
+(* ... when it is reached while the caller is awaiting, the timer event is enabled ... *)
+Theorem C18_due_timer_fails : forall g tr s t w D,
+  0 < u g -> Forall wf_event tr -> run g init tr = Some s ->
+  awaiting (pcs (tasks s t)) = true -> deadline (tasks s t) w = Some D -> D <= now s ->
+  exists s', step g s (EFire t w) = Some s' /\ now s' = now s /\
+             tasks s' t = failed (tasks s t) (fire_kind w) (now s).
+Proof. exact due_timer_fails. Qed.
+Print Assumptions C18_due_timer_fails.
+
+(* ... and whenever a timer fires, it fires exactly at its deadline and (caller awaiting) the request has failed
+   with that timer's error, stamped with the deadline.  With the four theorems above: the request fails with
+   a timeout error no later than the configured bound plus the documented rounding. *)
+Theorem C18_timeout_at_deadline : forall g tr s t w s',
+  0 < u g -> Forall wf_event tr -> run g init tr = Some s -> step g s (EFire t w) = Some s' ->
+  exists D, deadline (tasks s t) w = Some D /\ now s = D /\ now s' = D /\
+            (awaiting (pcs (tasks s t)) = true -> tasks s' t = failed (tasks s t) (fire_kind w) D).
+Proof. exact timeout_at_deadline. Qed.
+Print Assumptions C18_timeout_at_deadline.
+
+(* ---- no residue ---------------------------------------------------------------------------------------------- *)
+
+(* In EVERY reachable state, a request that has failed (timeout of any kind or cancellation, at any await
+   point) holds no pool slot, is not queued, has no writer task and no armed timer; the connection it had is
+   closed, is not in the idle pool and is not owned by any other request. *)
+Theorem C18_residue : forall g tr s t f a,
+  0 < u g -> Forall wf_event tr -> run g init tr = Some s -> pcs (tasks s t) = PFailed f a ->
+  ~ In t (acq s) /\ ~ In t (waiters s) /\ writer (tasks s t) = false /\ tm (tasks s t) = no_timers /\
+  (forall c, conn_of (tasks s t) = Some c ->
+     In c (closedc s) /\ ~ In c (idle s) /\
+     forall t', has_conn (pcs (tasks s t')) = true -> conn_of (tasks s t') <> Some c).
+Proof. exact residue. Qed.
+Print Assumptions C18_residue.
+
+(* the pool accounting is exact in every reachable state (the C07 coherence is re-established after every
+   failure): slots = requests being established or served, queue = requests waiting, idle connections are open
+   and owned by nobody *)
+Theorem C18_pool_coherent : forall g tr s,
+  run g init tr = Some s ->
+  NoDup (acq s) /\ NoDup (waiters s) /\
+  (forall t, In t (acq s) <-> holds_slot (pcs (tasks s t)) = true) /\
+  (forall t, In t (waiters s) <-> pcs (tasks s t) = PWaitSlot) /\
+  (forall c, In c (idle s) -> ~ In c (closedc s) /\
+     forall t, has_conn (pcs (tasks s t)) = true -> conn_of (tasks s t) <> Some c).
+Proof. exact pool_coherent. Qed.
+Print Assumptions C18_pool_coherent.
+
+(* ---- other requests are neither failed nor cancelled ----------------------------------------------------------- *)
+
+(* a request is failed only by an event of its own: its own cancellation, one of its own timers, or its own
+   read picking up a timer that fired while the caller was not awaiting *)
+Theorem C18_failed_only_by_own_event : forall g tr s t f a,
+  run g init tr = Some s -> pcs (tasks s t) = PFailed f a -> exists e, In e tr /\ cause t f e.
+Proof. exact failed_only_by_own_event. Qed.
+Print Assumptions C18_failed_only_by_own_event.
+
+(* step form, with the failure time: the failure is stamped with the instant of the causing event *)
+Theorem C18_failure_stamped_now : forall g tr s e s' t f a,
+  run g init tr = Some s -> step g s e = Some s' -> pcs (tasks s' t) = PFailed f a ->
+  pcs (tasks s t) = PFailed f a \/ (cause t f e /\ a = now s /\ live (pcs (tasks s t)) = true).
+Proof. exact failure_stamped_now. Qed.
+Print Assumptions C18_failure_stamped_now.
+
+(* whatever happens to request t' (timeout, cancellation, anything), a different request t is left exactly as it
+   was, or makes progress: a queued request is given the freed slot, a request waiting for the shared lookup
+   starts connecting *)
+Theorem C18_bystander_untouched : forall g tr s e s' t,
+  run g init tr = Some s -> step g s e = Some s' -> ev_task e <> Some t ->
+  tasks s' t = tasks s t \/
+  (pcs (tasks s t) = PWaitSlot /\
+     (pcs (tasks s' t) = PHeaders \/ pcs (tasks s' t) = PConnect \/ pcs (tasks s' t) = PResolve)) \/
+  (pcs (tasks s t) = PResolve /\ pcs (tasks s' t) = PConnect).
+Proof. exact bystander_untouched. Qed.
+Print Assumptions C18_bystander_untouched.
+
+(* the shared DNS lookup in flight survives every event but the resolver's answer (in particular the timeout or
+   cancellation of the request that started it); a cached answer stays *)
+Theorem C18_lookup_survives : forall g s e s',
+  step g s e = Some s' -> dns s = DInflight \/ dns s = DCached ->
+  dns s' = dns s \/ (e = EDns /\ dns s = DInflight /\ dns s' = DCached).
+Proof. exact step_dns. Qed.
+Print Assumptions C18_lookup_survives.
+
+(* ---- the session remains usable ---------------------------------------------------------------------------- *)
+
+(* after ANY history, once the earlier requests have ended (however they ended), a new request served by a
+   cooperative peer completes *)
+Theorem C18_session_usable : forall g tr s t c,
+  0 <= limit g -> run g init tr = Some s ->
+  (forall t', live (pcs (tasks s t')) = false) -> ~ In t (ids s) ->
+  exists tr' s', run g s (EStart t c :: tr') = Some s' /\ pcs (tasks s' t) = PDone.
+Proof. exact session_usable. Qed.
+Print Assumptions C18_session_usable.
+
+(* ---- non-vacuity ----------------------------------------------------------------------------------------------- *)
+
+Definition ex_g : gcfg := mkG 16 1.
+Definition ex_cfg (total connect sockc sockr : option Z) (blk : bool) : tcfg := mkCfg total connect sockc sockr 80 blk.
+
+(* pool of one.  Request 0 (total 8.125 s, started 2 ticks into a second) resolves, connects, receives a partial
+   head and then the peer stalls; request 1 (connect timeout 2 s) queues for the slot and times out at tick 35;
+   request 2 queues behind it.  At tick 144 (= ceil(2 + 130)) request 0's total timer fires: it fails, its
+   connection is closed, request 2 is woken, connects, is served and its connection goes back to the pool; a
+   follow-up request 3 then reuses that connection and completes. *)
+Definition ex_trace : list event :=
+  [EAdv 2; EStart 0%N (ex_cfg (Some 130) None None None false); EAdv 1; EDns; EConn 0%N; EData 0%N KPart;
+   EStart 1%N (ex_cfg None (Some 32) None None false); EStart 2%N (ex_cfg None None None (Some 40) true);
+   EAdv 32; EFire 1%N TConn; EAdv 109; EFire 0%N TTotal;
+   EConn 2%N; EWritten 2%N; EData 2%N KHead; ERead 2%N; EData 2%N KBig; EData 2%N KEnd;
+   EStart 3%N (ex_cfg (Some 20) None None None false); EData 3%N KHead; ERead 3%N; EData 3%N KEnd].
+
+Example C18_example_run :
+  exists s, run ex_g init ex_trace = Some s /\
+    pcs (tasks s 0%N) = PFailed FTotal 144 /\ pcs (tasks s 1%N) = PFailed FConnect 35 /\
+    pcs (tasks s 2%N) = PDone /\ pcs (tasks s 3%N) = PDone /\
+    acq s = [] /\ waiters s = [] /\ idle s = [1%N] /\ closedc s = [0%N] /\ Forall wf_event ex_trace.
+Proof.
+  eexists. split; [vm_compute; reflexivity|]. vm_compute.
+  repeat split; try reflexivity.
+  repeat constructor; intros t [H|[H|[H|H]]]; try discriminate; injection H as <-; vm_compute; discriminate.
+Qed.
+Print Assumptions C18_example_run.
+
+(* the hypotheses of C18_bound_total / C18_due_timer_fails hold in the state just before request 0's timer
+   fires: it is awaiting the head, its effective total is 130 ticks, and the deadline 144 has been reached *)
+Example C18_example_bound_hyps :
+  exists s, run ex_g init (firstn 11 ex_trace) = Some s /\
+    awaiting (pcs (tasks s 0%N)) = true /\ eff_total (cfg (tasks s 0%N)) = Some 130 /\
+    deadline (tasks s 0%N) TTotal = Some 144 /\ now s = 144 /\
+    pcs (tasks s 2%N) = PWaitSlot /\ total_when 16 2 130 80 = 144.
+Proof. eexists. split; [vm_compute; reflexivity|]. vm_compute. repeat split; reflexivity. Qed.
+Print Assumptions C18_example_bound_hyps.
+
+(* the hypotheses of C18_session_usable hold after a history in which every request failed *)
+Example C18_example_usable_hyps :
+  exists s, run ex_g init [EStart 0%N (ex_cfg (Some 20) None None None false); EStart 1%N (ex_cfg None None None None false);
+                          ECancel 1%N; EAdv 20; EFire 0%N TTotal] = Some s /\
+    pcs (tasks s 0%N) = PFailed FTotal 20 /\ pcs (tasks s 1%N) = PFailed FCancelled 0 /\
+    ids s = [0%N; 1%N] /\ dns s = DInflight /\ acq s = [].
+Proof. eexists. split; [vm_compute; reflexivity|]. vm_compute. repeat split; reflexivity. Qed.
+Print Assumptions C18_example_usable_hyps.
